@@ -1,8 +1,26 @@
 """C12: Decimal -> f64 / f32 is correctly rounded (nearest, ties to even, sign of d).
 
-Verified items (real, macro-expanded bodies of /repo/src/into_float.rs):
-  n_signif_bits, trait Float (default body `from_decimal`, verified ONCE generically over the associated
-  consts), impl Float for f64 / f32, <f64/f32 as From<Decimal>>::from (emitted as free functions, R54).
+Verified with their real, macro-expanded bodies (/repo/src/into_float.rs):
+  * `n_signif_bits`
+  * `trait Float`: the default body `from_decimal` is verified ONCE, generically over the associated consts,
+    under the trait-level requirement float_format(FRACTION_BITS, EXP_BIAS, BITS) (= (52,1023,64) or (23,127,32));
+    `from_bits` carries `ensures r == Self::of_bits(bits)` (ghost member, defined per impl)            [R55]
+  * `impl Float for f64 / f32`: bodies of `from_bits`; their consts are shown to satisfy float_format at
+    the two call sites of `from_decimal` (the precondition is discharged there)                       [R51, R52]
+  * `<f64 / f32 as From<Decimal>>::from`, emitted as free functions `from_decimal_for_f64/f32` because
+    `From::from` cannot carry the domain `valid(d)`                                                  [R54, R53]
+
+Stages (all PROVED, no assume/admit; bodies untouched; one entry hint over the parameter `d`):
+  (1) front end  (2) safety: no overflow, shifts < width and lossless, divisor != 0, index in range
+  (3) normalisation: the quotient has add_bits or add_bits+1 bits   (4) guard bits + sticky <=> midpoint comparison
+  (5) encoding / carry into the exponent field, sign   (6) bits == float_bits_of(..) == sign | rne_bits(|c|, 10^f, F, bias)
+  plus: the pattern is a normal number (never subnormal / inf), and the oracle's (m, e) is proved to be a nearest
+  normal number with ties to even in the relational sense (spec/float_rne.rs: lemma_rne_is_nearest).
+
+Assumptions (spec/std_float_out.rs A1-A5, spec/std_assumed.rs i128::unsigned_abs): f64/f32::from_bits (uninterpreted
+`f64_of_bits`), u128::leading_zeros, u128::pow, values of f64/f32::{MANTISSA_DIGITS, MAX_EXP}, size_of of u64/u32 (R52
+table), and the compiler's `i128 as f64/f32` cast (NOT verified: the n_frac_digits == 0 || coeff == 0 branch of C12,
+including "zero maps to +0.0", is relative to rustc/LLVM implementing that cast with round-to-nearest-even).
 """
 from vgen import Unit, Contract as C, Loop
 import common
@@ -164,6 +182,70 @@ pub proof fn lemma_stage_round(quot: u128, rem: u128, den1: u128, N: int, F: u32
         requires N == D * sig + N % D, N % D < D, sig + 1 <= pw2((F + 1) as nat), D > 0;
 }
 
+/// stage 5: exponent field; the sum stays below the sign position and the biased exponent is neither 0
+/// nor all ones (10^-18 <= |d| < 2^127 is in the normal range of both formats: no subnormal, no infinity)
+pub proof fn lemma_stage_encode(F: u32, bias: i32, BITS: u32, exp: int, m: int)
+    requires
+        float_format(F as int, bias as int, BITS as int),
+        -60 <= exp <= 126,
+        pw2(F as nat) <= m <= 2 * pw2(F as nat),
+    ensures ({
+        let e64 = (bias + exp - 1) as u64;
+        let hi = e64 << F;
+        let bits1 = m + hi;
+        &&& bias + exp - 1 >= 0
+        &&& hi == (bias + exp - 1) * pw2(F as nat)
+        &&& bits1 < pw2((BITS - 1) as nat) && bits1 < 0x8000_0000_0000_0000
+        &&& is_normal_pattern(bits1, F as nat, BITS as nat)
+    }),
+{
+    lemma_pw2_values();
+    let e64 = (bias + exp - 1) as u64;
+    assert(e64 < 0x800);
+    let P = pw2(F as nat);
+    if F == 52 {
+        assert(e64 < 0x800u64 ==> (e64 << 52u32) == mul(e64, 0x10_0000_0000_0000u64)) by (bit_vector);
+        assert(e64 * 0x10_0000_0000_0000 < 0x8000_0000_0000_0000) by (nonlinear_arith) requires e64 < 0x800;
+    } else {
+        assert(e64 < 0x800u64 ==> (e64 << 23u32) == mul(e64, 0x80_0000u64)) by (bit_vector);
+        assert(e64 * 0x80_0000 < 0x4_0000_0000) by (nonlinear_arith) requires e64 < 0x800;
+    }
+    let hi = e64 << F;
+    assert(hi == e64 * P);
+    let bits1 = m + hi;
+    assert(bits1 <= (e64 + 2) * P) by (nonlinear_arith) requires bits1 == m + e64 * P, m <= 2 * P;
+    assert(bits1 >= (e64 + 1) * P) by (nonlinear_arith) requires bits1 == m + e64 * P, m >= P;
+    assert((e64 + 1) * P >= 1 * P) by (nonlinear_arith) requires e64 >= 0, P > 0;
+    if F == 52 {
+        assert((e64 + 2) * P <= 1150 * P) by (nonlinear_arith) requires e64 + 2 <= 1150, P > 0;
+    } else {
+        assert((e64 + 2) * P <= 254 * P) by (nonlinear_arith) requires e64 + 2 <= 254, P > 0;
+    }
+    assert(pw2((BITS - 1 - F) as nat) == (if F == 52 { 2048int } else { 256int }));
+}
+
+/// stage 5 (sign): OR-ing the sign into the free top position is an addition
+pub proof fn lemma_stage_sign(b1: u64, neg: bool, BITS: u32)
+    requires BITS == 64 || BITS == 32, b1 < pw2((BITS - 1) as nat)
+    ensures ({
+        let sgn = if neg { 1u64 } else { 0u64 };
+        (b1 | (sgn << ((BITS - 1) as u32))) == b1 + (if neg { pw2((BITS - 1) as nat) } else { 0 })
+    }),
+{
+    lemma_pw2_values();
+    if BITS == 64 {
+        assert(1u64 << 63u32 == 0x8000_0000_0000_0000u64) by (bit_vector);
+        assert(0u64 << 63u32 == 0u64) by (bit_vector);
+        assert(b1 < 0x8000_0000_0000_0000u64 ==> (b1 | 0x8000_0000_0000_0000u64) == add(b1, 0x8000_0000_0000_0000u64)) by (bit_vector);
+        assert(b1 | 0u64 == b1) by (bit_vector);
+    } else {
+        assert(1u64 << 31u32 == 0x8000_0000u64) by (bit_vector);
+        assert(0u64 << 31u32 == 0u64) by (bit_vector);
+        assert(b1 < 0x8000_0000u64 ==> (b1 | 0x8000_0000u64) == add(b1, 0x8000_0000u64)) by (bit_vector);
+        assert(b1 | 0u64 == b1) by (bit_vector);
+    }
+}
+
 /// stages 5+6: assembling the pattern; `+ round_up` carries into the exponent field exactly when the
 /// rounded significand is 2^(F+1); the result is the oracle's pattern
 pub proof fn lemma_from_decimal(c: i128, f: u8, F: u32, bias: i32, BITS: u32)
@@ -251,52 +333,15 @@ pub proof fn lemma_from_decimal(c: i128, f: u8, F: u32, bias: i32, BITS: u32)
     let exp = dlz as i32 - nlz as i32 - adj as i32;
     assert(b - nshl == exp - F);
     assert(-60 <= exp <= 126);
-    let e64 = (bias + exp - 1) as u64;
-    assert(e64 < 0x800);
+    lemma_stage_encode(F, bias, BITS, exp, m);
     let P = pw2(F as nat);
-    if F == 52 {
-        assert(e64 < 0x800u64 ==> (e64 << 52u32) == mul(e64, 0x10_0000_0000_0000u64)) by (bit_vector);
-        assert(e64 * 0x10_0000_0000_0000 < 0x8000_0000_0000_0000) by (nonlinear_arith) requires e64 < 0x800;
-    } else {
-        assert(e64 < 0x800u64 ==> (e64 << 23u32) == mul(e64, 0x80_0000u64)) by (bit_vector);
-        assert(e64 * 0x80_0000 < 0x4_0000_0000) by (nonlinear_arith) requires e64 < 0x800;
-    }
+    let e64 = (bias + exp - 1) as u64;
     let hi = e64 << F;
-    assert(hi == e64 * P);
     let bits1 = signif + hi + (if up { 1int } else { 0int });
     assert(bits1 == (b - nshl + F + bias - 1) * P + m) by (nonlinear_arith)
-        requires bits1 == m + hi, hi == e64 * P, e64 == bias + exp - 1, b - nshl == exp - F;
+        requires bits1 == m + hi, hi == (bias + exp - 1) * P, b - nshl == exp - F;
     assert(bits1 == rne_bits(abs_int(c as int), pow10(f as nat), F as nat, bias as int));
-    // range: biased exponent field stays below all-ones (never infinity), sign bit position is free
-    assert(m <= 2 * P);
-    assert(bits1 <= (e64 + 2) * P) by (nonlinear_arith) requires bits1 == m + e64 * P, m <= 2 * P;
-    let T = pw2((BITS - 1) as nat);
-    if F == 52 {
-        assert(e64 + 2 <= 1150);
-        assert((e64 + 2) * P <= 1150 * P) by (nonlinear_arith) requires e64 + 2 <= 1150, P > 0;
-        assert(bits1 < T);
-    } else {
-        assert(e64 + 2 <= 254);
-        assert((e64 + 2) * P <= 254 * P) by (nonlinear_arith) requires e64 + 2 <= 254, P > 0;
-        assert(bits1 < T);
-    }
-    // normal: 1 <= biased exponent <= 2^w - 2
-    assert(bits1 >= (e64 + 1) * P) by (nonlinear_arith) requires bits1 == m + e64 * P, m >= P;
-    assert((e64 + 1) * P >= 1 * P) by (nonlinear_arith) requires e64 >= 0, P > 0;
-    assert(pw2((BITS - 1 - F) as nat) == (if F == 52 { 2048int } else { 256int }));
-    assert(is_normal_pattern(bits1, F as nat, BITS as nat));
-    let b1 = bits1 as u64;
-    if BITS == 64 {
-        assert(1u64 << 63u32 == 0x8000_0000_0000_0000u64) by (bit_vector);
-        assert(0u64 << 63u32 == 0u64) by (bit_vector);
-        assert(b1 < 0x8000_0000_0000_0000u64 ==> (b1 | 0x8000_0000_0000_0000u64) == add(b1, 0x8000_0000_0000_0000u64)) by (bit_vector);
-        assert(b1 | 0u64 == b1) by (bit_vector);
-    } else {
-        assert(1u64 << 31u32 == 0x8000_0000u64) by (bit_vector);
-        assert(0u64 << 31u32 == 0u64) by (bit_vector);
-        assert(b1 < 0x8000_0000u64 ==> (b1 | 0x8000_0000u64) == add(b1, 0x8000_0000u64)) by (bit_vector);
-        assert(b1 | 0u64 == b1) by (bit_vector);
-    }
+    lemma_stage_sign(bits1 as u64, c < 0, BITS);
 }
 '''
 
@@ -334,9 +379,9 @@ def build():
     common.add_decimal(u, consts=False)
     u.fn('fpdec', 'into_float::n_signif_bits', C(post=[('n_signif_bits.value', 'r == bit_len(v as nat)')]))
     u.trait_concrete('fpdec', 'into_float::trait Float', float_trait_contracts(), ghost=FLOAT_GHOST)
-    u.impl('fpdec', 'into_float::impl Float for f64', {'from_bits': None},
+    u.impl('fpdec', 'into_float::impl Float for f64', {'from_bits': C()},
            extra='    open spec fn of_bits(bits: u64) -> f64 { f64_of_bits(bits) }')
-    u.impl('fpdec', 'into_float::impl Float for f32', {'from_bits': None},
+    u.impl('fpdec', 'into_float::impl Float for f32', {'from_bits': C()},
            extra='    open spec fn of_bits(bits: u64) -> f32 { f32_of_bits(bits as u32) }')
     u.method_fn('fpdec', 'into_float::impl From<Decimal> for f64', 'from', from_contract('f64', 52, 1023, 64, 'u64'),
                 'from_decimal_for_f64')
